@@ -84,6 +84,7 @@ Mutating(r) ==
        THEN st' = exp.st /\ UNCHANGED <<skip, bad>>
        ELSE /\ bad' = bad + 1
             /\ PrintT(<<"MISMATCH", l, ToJson([outcome |-> exp.outcome, res |-> exp.res, st |-> exp.st,
+                                              why |-> IF r.ev = "Annotate" /\ exp.outcome = "err" THEN AnnotateWhy(st, r.a) ELSE "",
                                               ok |-> [outcome |-> okOutcome, state |-> okState, res |-> okRes,
                                                       order |-> okOrder, pos |-> okPos, api |-> okApi],
                                               api |-> IF okState /\ r.api.has THEN ApiExpected(exp.st, r.api) ELSE <<>>])>>)
@@ -113,6 +114,12 @@ RoundTrip(r) ==
             /\ PrintT(<<"MISMATCH", l, ToJson([roundtrip |-> TRUE, outcome |-> "ok",
                                               ok |-> [outcome |-> okOutcome, inv |-> okInv, view |-> okView, again |-> okAgain,
                                                       pos |-> okPos, api |-> okApi],
+                                              \* which of the store invariants the loaded state violates
+                                              invs |-> IF okOutcome /\ ~okInv
+                                                       THEN [index |-> IndexExact(logged) /\ IndexChronological(logged), keydata |-> KeyDataExact(logged),
+                                                             dangling |-> NoDangling(logged), idmap |-> IdMapExact(logged),
+                                                             other |-> TselWF(logged) /\ TombsCanonical(logged)]
+                                                       ELSE [index |-> TRUE, keydata |-> TRUE, dangling |-> TRUE, idmap |-> TRUE, other |-> TRUE],
                                               view |-> View(target, fmt),
                                               got |-> IF okInv THEN View(logged, fmt) ELSE [res |-> <<>>, sets |-> <<>>, anns |-> <<>>],
                                               st |-> IF fmt = "cbor" THEN st ELSE InitState,
